@@ -233,7 +233,8 @@ class Expr:
         name = body.name_of(l)
         sd = single_def(body, l)
         res = None
-        if sd is not None and depth < self.max_depth and (name is None or self.expand_named):
+        if sd is not None and depth < self.max_depth and (name is None or self.expand_named is True or
+                                                          (self.expand_named == 'pure' and self._pure_def(sd))):
             self.memo[l] = ('var', l, name)  # recursion guard
             if sd[0] == 'stmt':
                 res = self.rvalue(sd[3], depth + 1)
@@ -248,6 +249,42 @@ class Expr:
                 res = ('var', l, name)
         self.memo[l] = res
         return res
+
+    def _pure_def(self, sd, depth=0):
+        """A definition made only of constants, arguments, arithmetic, casts and field reads of such (no calls):
+        its value cannot change between definition and use, so a named local defined this way may be expanded."""
+        if sd[0] != 'stmt' or depth > 8:
+            return False
+        rv = sd[3]
+        ops = []
+        k = rv['k']
+        if k == 'use':
+            ops = [rv['op']]
+        elif k == 'bin':
+            ops = [rv['a'], rv['b']]
+        elif k in ('un',):
+            ops = [rv['a']]
+        elif k == 'cast':
+            ops = [rv['op']]
+        else:
+            return False
+        for o in ops:
+            if o['k'] == 'const':
+                continue
+            if o['k'] in ('copy', 'move'):
+                p = o['place']
+                if any(e['k'] not in ('field',) for e in p.get('proj', [])):
+                    return False
+                l = p['local']
+                ds = defs(self.body).get(l, [])
+                if len(ds) == 1 and ds[0][0] == 'arg':
+                    continue
+                sd2 = single_def(self.body, l)
+                if sd2 is None or not self._pure_def(sd2, depth + 1):
+                    return False
+            else:
+                return False
+        return True
 
     def place(self, p, depth=0):
         t = self.local(p['local'], depth)
